@@ -473,6 +473,53 @@ func keysOf(m map[string]*Path) []string {
 	return out
 }
 
+// ---------------------------------------------------------------- full reads
+
+// c18FullReads (C18.R3): a decoder that calls Read directly and throws the byte count
+// away treats a short read as a full one: the field is cut and the rest of the
+// message is mis-framed.
+func c18FullReads(c *Ctx) {
+	P := c.P
+	c.Rule("C18.R3", "no short reads: in the packages that decode wire messages no call of a Read([]byte) (int, error) method discards the returned count (io.ReadFull / io.CopyN / binary.Read are the full-read idioms); a decoder that takes one Read for the whole field cuts the field and mis-frames the rest whenever the bytes arrive in pieces (def-use of the call result)")
+	n := 0
+	nFull := 0
+	for _, fn := range pkgFuncs(P, true, "certs", "common", "userauth", "codex", "portforwarding", "authgrants", "keys", "acme") {
+		eachInstr(fn, func(ins ssa.Instruction) {
+			call, ok := ins.(*ssa.Call)
+			if !ok {
+				return
+			}
+			switch calleeID(call) {
+			case "io.ReadFull", "io.CopyN", "encoding/binary.Read", "io.ReadAtLeast":
+				nFull++
+				return
+			}
+			f := calleeFunc(&call.Call)
+			if f == nil || f.Name() != "Read" {
+				return
+			}
+			if f.Pkg() != nil && (f.Pkg().Path() == "crypto/rand" || f.Pkg().Path() == "math/rand") {
+				return // random sources fill the whole buffer; not wire input
+			}
+			sig := f.Type().(*types.Signature)
+			if sig.Params().Len() != 1 || sig.Results().Len() != 2 || !isByteSlice(sig.Params().At(0).Type()) {
+				return
+			}
+			n++
+			used := false
+			if ex := extractOf(call, 0); ex != nil && ex.Referrers() != nil && len(*ex.Referrers()) > 0 {
+				used = true
+			}
+			c.Check(used, "C18.R3", fmt.Sprintf("read:%s#%s", FuncName(fn), shortCallee(&call.Call)), P.InstrPos(call), "the byte count of the Read is used",
+				"the byte count of this Read is discarded: when fewer bytes than the buffer holds arrive at once (a field split over two frames), the decoded field is cut short and the remaining bytes are parsed as the next fields")
+		})
+	}
+	c.Floor("C18.R3", "full-read idiom call sites in the decoding packages", nFull, 20)
+	if n == 0 {
+		c.OK("C18.R3", "bare-read-calls", "-", "no bare Read call in the decoding packages")
+	}
+}
+
 // ---------------------------------------------------------------- decoded storage ownership
 
 // c18Consume (C18.R4): a stream decoder never lets a []byte field of the value it
